@@ -103,8 +103,20 @@ def _member_mode(v, seq, w):
     return None, idx[0]
 
 
-def judge(m, a, v):
-    """None when the returned value honours the documented contract, else the failure mode (a short stable string)."""
+def drawn_position(seed, n, w):
+    """Which POSITION the generator state after pre-state `seed` selects under weights w: asked of the real class
+    itself by drawing over range(n) (positions are distinct members, so the answer is unambiguous)."""
+    try:
+        i = CobaRandom(seed).choice(list(range(n)), list(w))
+    except Exception:   # noqa
+        return None
+    return i if isinstance(i, int) and not isinstance(i, bool) and 0 <= i < n else None
+
+
+def judge(m, a, v, seed=None):
+    """None when the returned value honours the documented contract, else the failure mode (a short stable string).
+    With `seed` (the pre-state the call started from) the drawn position of choicew is identified where the returned
+    item alone does not identify it (equal members with different weights)."""
     if m == 'random': return _uniform_mode(v, a[0], a[1])
     if m == 'randint': return _int_mode(v, a[0], a[1])
     if m == 'choice':
@@ -114,8 +126,13 @@ def judge(m, a, v):
         seq, w = a[0], (a[1] if len(a) > 1 else None)
         mode, i = _member_mode(v[0], seq, w)
         if mode: return mode
-        want = [(w[j] if w is not None else 1 / len(seq)) for j, x in enumerate(seq) if type(x) is type(v[0]) and x == v[0]]
+        # the positions the returned item can stand for: same type and value, selectable (non-zero weight)
+        cands = [j for j, x in enumerate(seq) if type(x) is type(v[0]) and x == v[0] and (w is None or w[j] != 0)]
+        want = [(w[j] if w is not None else 1 / len(seq)) for j in cands]
         if v[1] not in want: return "weight is not the returned member's weight"
+        if w is not None and seed is not None and len(set(want)) > 1:
+            i = drawn_position(seed, len(seq), w)
+            if i in cands and v[1] != w[i]: return "weight is not the drawn position's weight"
         return None
     if m == 'shuffle':
         try:
@@ -167,9 +184,11 @@ def arg_class(m, a):
     if m in ('choice', 'choicew'):
         if len(a) == 1: return 'no weights'
         w = a[1]
-        if w and w[0] == 0: return 'first weight zero'
-        if any(x == 0 for x in w): return 'zero weight not first'
-        return 'no zero weight'
+        dup = any(a[0][i] == a[0][j] and w[i] != w[j] for i in range(len(w)) for j in range(i)) if len(w) == len(a[0]) else False
+        tail = '; equal members with different weights' if dup else ''
+        if w and w[0] == 0: return 'first weight zero' + tail
+        if any(x == 0 for x in w): return 'zero weight not first' + tail
+        return 'no zero weight' + tail
     if m == 'shuffle': return 'n<2' if len(a[0]) < 2 else 'n>=2'
     return 'default arguments'
 
@@ -196,7 +215,7 @@ def report_call(acc, m, a, seed, order=None):
         mode = f'raises {type(e).__name__}'
         what = f'CobaRandom({seed}).{m}{tuple(a) if m != "gauss" else "() twice"} raised {e!r}'
     else:
-        mode = judge(m, a, v)
+        mode = judge(m, a, v, seed)
         if mode is None: return False
         what = f'CobaRandom({seed}).{m}{tuple(a) if m != "gauss" else "() twice"} returned {v!r}'
     key = f'{m}|{mode}|{arg_class(m, a)}; {consumed_feature(seed, k)}'
@@ -210,6 +229,8 @@ RANDINT_ARGS = [[0, 0], [0, 1], [-3, 3], [0, 2 ** 20]]
 SEQS = [['a'], ['a', 'b'], ['a', 'b', 'c'], ['a', 'b', 'c', 'd', 'e', 'f', 'g']]
 WEIGHTS = [[1], [0, 1], [1, 0], [0, 0, 1], [.2, 0, .8], [1e-9, 1]]
 SHUFFLES = [[], [1], [1, 2], [1, 2, 3], [1, 2, 3, 4, 5]]
+# members that compare equal but carry different weights: position, not value, decides the weight
+DUPLICATES = [[['x', 'y', 'x'], [0, .5, .5]], [['x', 'y', 'x'], [.2, .3, .5]], [[1, 1.0, True], [.2, .3, .5]], [['x', 'x'], [0, 1]], [['y', 'x', 'x'], [.5, 0, .5]]]
 
 
 def seq_for(w): return ['x', 'y', 'z'][:len(w)]
@@ -224,6 +245,7 @@ def boundary_specs():
     out += [('choice', [seq_for(w), w]) for w in WEIGHTS] + [('choice', [['x', 'y', 'z'], [0, 1, 0]]), ('choice', [['x', 'y'], [.5, .5]])]
     out += [('choicew', [seq_for(w), w]) for w in WEIGHTS] + [('choicew', [['x', 'y', 'z'], [0, 1, 0]])]
     out += [('choicew', [s]) for s in SEQS[:3]]
+    out += [(m, [list(q), list(w)]) for q, w in DUPLICATES for m in ('choice', 'choicew')]
     out += [('shuffle', [s]) for s in SHUFFLES]
     out += [('gauss', [])]
     out += [('gausses', [3]), ('randoms', [3, -1, 1]), ('randoms', [2, 0, 1]), ('randoms', [2, P20 - E20, P20]), ('randoms', [2, 10.1, 10.1 + E20]), ('randoms', [0, 0, 1]),
@@ -355,9 +377,17 @@ CALLS = {           # one letter per public method and per code path inside it
     'choice':    lambda r: r.choice([1, 2, 3]),
     'choice2':   lambda r: r.choice([1, 2, 3], [.2, .3, .5]),
     'choicew':   lambda r: r.choicew([1, 2, 3]),
-    'choicew2':  lambda r: r.choicew([1, 2, 3], [.2, .3, .5]),
+    'choicew2':  lambda r: r.choicew(['x', 'y', 'x'], [0, .5, .5]),       # equal members, different weights
     'gauss':     lambda r: r.gauss(),
     'gausses':   lambda r: r.gausses(3),
+}
+# the same calls as (method, args) specs, so that the contract predicates can be applied to what a history returns
+HIST_SPECS = {
+    'random': ('random', [0, 1]), 'random2': ('random', [-1, 1]), 'randoms': ('randoms', [2, 0, 1]), 'randoms2': ('randoms', [2, 1, 3]),
+    'randint': ('randint', [0, 5]), 'randints': ('randints', [2, 0, 5]), 'randints2': ('randints', [2, -2, 2]),
+    'shuffle': ('shuffle', [[1, 2, 3]]), 'shufflei': ('shuffle', [[1, 2, 3]]), 'choice': ('choice', [[1, 2, 3]]),
+    'choice2': ('choice', [[1, 2, 3], [.2, .3, .5]]), 'choicew': ('choicew', [[1, 2, 3]]), 'choicew2': ('choicew', [['x', 'y', 'x'], [0, .5, .5]]),
+    'gauss': ('gausses', [1]), 'gausses': ('gausses', [3]),
 }
 C_CALLS = ('random', 'shuffle', 'gauss')          # the third instance (different seed) only needs to disturb / be disturbed
 MODULE_SEED = 1
@@ -395,6 +425,7 @@ def run_history(ops):
 
 
 _SOLO = {}
+_SOLO_BAD = set()         # (seed, calls) whose solo run returns a contract-violating value
 
 
 def solo(seed, calls):
@@ -405,6 +436,9 @@ def solo(seed, calls):
         stdlib_random.setstate(_STD0); CLOCK.reset(); cr.seed(99)      # same surroundings as at the start of a history
         r = CobaRandom(seed)
         v = _SOLO[k] = [CALLS[c](r) for c in calls]
+        for c, res in zip(calls, v):                                    # contract predicates, once per distinct call sequence
+            m, a = HIST_SPECS[c]
+            if judge(m, a, [res] if c == 'gauss' else res): _SOLO_BAD.add(k); break
     return v
 
 
@@ -430,6 +464,19 @@ def projections(ops, out):
     if mod and mod[0]: proj.append(('M', MODULE_SEED, tuple(mod[0]), mod[1]))
     for actor, (calls, res) in per.items(): proj.append((actor, INST_SEED[actor], tuple(calls), res))
     return proj
+
+
+def history_contract(ops, out):
+    """[(key, what)]: contract predicates on what the instance calls of a history returned (no state knowledge here:
+    for choicew the weight must be that of a selectable member equal to the item)."""
+    bad = []
+    for op, res in zip(ops, out):
+        actor, call = split(op)
+        if actor not in INST_SEED: continue
+        m, a = HIST_SPECS[call]
+        mode = judge(m, a, [res] if call == 'gauss' else res)
+        if mode: bad.append((f'{m}|{mode}|{arg_class(m, a)}; in a call history', f'history {list(ops)}: {op} returned {res!r}'))
+    return bad
 
 
 def history_mismatches(ops):
@@ -462,6 +509,10 @@ def victim_kind(v):
 def classify_history(ops):
     """-> list of (key, what) for one violating history (empty if it does not violate)."""
     out = []
+    try:
+        out += history_contract(ops, run_history(ops))
+    except Exception:   # noqa   (reported below as a history that raises)
+        pass
     for victim, mode, detail in history_mismatches(ops):
         if victim == '*':
             out.append((f'purity|history {mode}|calls on several generators', detail)); continue
@@ -542,7 +593,7 @@ class C05(Check):
             'transitions = 2^30 when all segments complete; HIST figures are in counters.hist_*); boundary cases = 2 sides x 32 blocks '
             'of 2^11 states: every one of the 2^16 smallest and 2^16 largest states is placed at every draw position of every (method, '
             'arguments) of the alphabet (random x 10 bound pairs, randint x 5, choice/choicew x sequences len 0..7 x weights incl. zeros, '
-            'shuffle n in {0,1,2,3,5}, gauss pair, randoms/randints/gausses) on a fresh real object; thorough adds one full-orbit pass '
+            'incl. equal members with different weights, shuffle n in {0,1,2,3,5}, gauss pair, randoms/randints/gausses) on a fresh real object; thorough adds one full-orbit pass '
             'per (method, arguments, alignment), cheapest first, until the time budget is used (completed passes listed in evidence). '
             '(b) HIST: every history of length <=4 over 39 letters (thorough adds every history of length 5 over a 22-letter and of length 6 over an 11-letter sub-alphabet): {A=CobaRandom(1), '
             'B=CobaRandom(1)} x 15 calls (every public method and code path), C=CobaRandom(2.5) x 3 calls, module-level seed/random/shuffle, stdlib random/seed, construction of a '
@@ -556,6 +607,7 @@ class C05(Check):
         'which value / member / permutation is returned is not constrained, nor is statistical quality; bulk methods are not required to equal their scalar forms',
         'choice/choicew on an empty sequence or with all-zero weights have no valid answer: an exception is the accepted outcome',
         'shuffle: only "returns a permutation of its input" is demanded (whether the input list is left alone is C09)',
+        'choicew with equal members of different weights: the weight must be that of a selectable member equal to the item and, at the boundary states (known generator state), that of the position the same state selects through choice(range(n), weights) on the real class',
         'None seeds and the module-level functions before the first coba.random.seed(k) are time-seeded by design and excluded; after seed(k) the module functions are required to behave as a CobaRandom(k)',
         'purity reference = the same real class driven alone in the same process (differential); the effect of coba on stdlib random is not constrained',
         'time is a virtual clock (coba.random.time replaced) in-process, the real clock in the subprocesses; 1 and 1.0 are not required to be the same seed',
@@ -700,7 +752,7 @@ class C05(Check):
             if not bad:
                 for actor, seed, calls, res in projections(ops, out):
                     try:
-                        if solo(seed, calls) != res: bad = True; break
+                        if solo(seed, calls) != res or (seed, calls) in _SOLO_BAD: bad = True; break
                     except Exception:   # noqa   (fails alone as well: part (a))
                         pass
             actors = {op[0] for op in ops}
@@ -746,7 +798,7 @@ class C05(Check):
                     except Exception:   # noqa
                         if nva: continue
                         report_call(acc, m, a, seed); continue
-                    if judge(m, a, v) is not None:
+                    if judge(m, a, v, seed) is not None:
                         report_call(acc, m, a, seed); continue
                     if k == 1:
                         seen.setdefault(si, set()).add(tuple(v) if isinstance(v, list) else v)
